@@ -37,7 +37,7 @@ CODEC_ASSUME = [
 
 MAP_ASSUME = [
     "hashing (CircleHash64 / BLAKE3) is not modelled: every key carries its digest vector; theorems quantify over ALL digest functions that are functions of the key under the caller's equality",
-    "keys are plain values up to the inline key limit (KeyOk); values of any size >= 1 (larger than the limit for their key: externalised by the caller's Storable, modelled by toStorableLim)",
+    "keys are plain values up to the inline key limit (KeyOk); values of any size >= 1 (larger than the limit for their key: externalised by the caller's Storable, modelled by toStorableLim); keys ABOVE the inline key limit (stored in their own slabs by the library) are outside model and theorems: stream mapbigkey decides them on the implementation alone (dictionary oracle, VerifyMap, storage health, reload)",
     "external collision-group slabs are embedded in the element that refers to them; the storage calls made on them are in the compared effect log",
     "Go slices / binary searches / uint32 arithmetic behave as List/Nat operations (no wrap-around under the invariant)",
 ]
@@ -96,7 +96,7 @@ PROPS = {
         "explanation": "Theorems: get/insert/set/remove/pop/count/setType_refines (the array model refines List operations for EVERY legal threshold, every value size >= 1, every position; in-range requests never fail; root ID and type stable), route_linear_eq_binary. Tie: every operation of every history replayed on the model; observations, net SlabStorage effects, dumps of every stored slab and periodic full-tree dumps must be identical; thresholds and constants compared exhaustively. Oracle: shadow slice.",
     },
     "C05": {
-        "streams": ["array", "settings", "map", "mapcollide", "batch"], "driver": {"array": "array", "settings": "settings", "map": "map", "mapcollide": "map", "batch": "batch"}, "scale": {"batch": 0.34}, "level": "proof",
+        "streams": ["array", "settings", "map", "mapcollide", "mapmeta", "batch"], "driver": {"array": "array", "settings": "settings", "map": "map", "mapcollide": "map", "mapmeta": "map", "batch": "batch"}, "scale": {"batch": 0.34}, "level": "proof",
         "trusted_base": LEAN_TB, "assumptions": ARRAY_ASSUME + [
             "MAP PART: the map invariant (AtreeProofs/MapInv.lean) is defined and the map model is tied by correspondence, but its preservation theorems are C02's obligations; this check's Lean obligations are the array theorems",
             "size bands are proved for the Nat model; uint32/uint16 truncation cannot occur because every slab size stays <= 1.5*32768 + one element < 65536 (band theorems)"],
@@ -104,16 +104,16 @@ PROPS = {
         "explanation": "Theorems: inv_new/insert/set/remove/popIterate/setType (ArrInv: size equations, bands [T/2, 1.5T], per-element inline limit, header copies, cumulative counts, sibling links, >= 2 children at an index root, fresh IDs) for every legal T; full_slab_has_two_elems; two_max_elems_fit; access_agree (positional access = sequential traversal). The arithmetic goes through the regenerated constants: a changed constant that breaks a band stops the proofs. Tie: per-operation dump comparison (every header copy, count sum, size, next link is in the dump). Oracle: VerifyArray / VerifyMap.",
     },
     "C02": {
-        "streams": ["map", "mapcollide", "mpersist"], "driver": {"map": "map", "mapcollide": "map", "mpersist": "map"}, "level": "proof",
+        "streams": ["map", "mapcollide", "mpersist", "mapmeta", "mapspill", "mapbigkey"], "driver": {"map": "map", "mapcollide": "map", "mpersist": "map", "mapmeta": "map", "mapspill": "map"}, "level": "proof",
         "trusted_base": LEAN_TB, "assumptions": MAP_ASSUME,
-        "rule": "map histories (set new / overwrite / remove present and absent / get / has / count / pop / type / three iterator flavours) at T in {256,257,511,512,1024,32768,random}; digests: the real digester, the real POOLED digester with a non-injective hash input (genuine collisions on all levels), and adversarial tables (first-level only, deeper levels, all levels, 1-3 digest levels, about one key per digest with large elements); values tiny / mid / around the value limit / just over half the element limit (externalised when larger); distinct = distinct (T, digest mode, length) programs",
+        "rule": "map histories (set new / overwrite / remove present and absent / get / has / count / pop / type / three iterator flavours) at T in {256,257,511,512,1024,32768,random}; digests: the real digester, the real POOLED digester with a non-injective hash input (genuine collisions on all levels), and adversarial tables (first-level only, deeper levels, all levels, 1-3 digest levels, about one key per digest with large elements); values tiny / mid / around the value limit / just over half the element limit (externalised when larger); DIRECTED (mapmeta): three slab levels at T in {256,276,312}, one non-root index slab driven to underflow under every sibling configuration of MergeOrRebalanceChildSlab (no left / both / no right sibling x can / cannot lend, the exact lending boundary, bigger / smaller / equal siblings, root collapse) - each (configuration, function) pair is a required branch, plus sweeps removing contiguous digest ranges from the left / middle / right; (mapspill): inline groups of exactly maxInlineMapElementSize-1/+0/+1 bytes, values of exactly maxInlineMapValueSize(key)-1/+0/+1 bytes in plain elements, groups and last-level lists; (mapbigkey, no model) keys above the inline key limit; distinct = distinct (T, digest mode, length) programs",
         "explanation": "Theorems: inv_new, get/has/set/remove/pop/count_refines: for EVERY digest function consistent with key equality (any hash distribution), every legal T, every number of digest levels, the map model refines dictionary operations, key-not-found exactly for absent keys, the only other refusal is the collision limit for a NEW key, MapInv (size bands, sorted unique digests, group shapes, routing by first digest, sibling links) preserved. Tie: every operation replayed on the model (observations, net storage effect, dump of every stored slab incl. collision-group slabs, periodic full dumps, decoded registers after commits). Oracle: Go map.",
     },
     "C12": {
-        "streams": ["mapcollide"], "driver": {"mapcollide": "map"}, "level": "proof",
+        "streams": ["mapcollide", "mapspill"], "driver": {"mapcollide": "map", "mapspill": "map"}, "level": "proof",
         "trusted_base": LEAN_TB, "assumptions": MAP_ASSUME,
-        "rule": "adversarial digest tables over 1-4 levels (alphabets of 2-8 values per level), collision limits 0,1,2,3,255, insert/update/remove mixes incl. grow-then-shrink; distinct = distinct programs",
-        "explanation": "Theorems: limit_refuses_new_key, limit_allows_update_and_room (refusal exactly when the first-level group already holds more than the limit and the key is new; an error returns no new state), order_canonical (ascending lexicographic digest order, full collisions in insertion order); group shapes (inline group born with two keys, exported to an external slab exactly when a first-level group exceeds the element limit, collapsed to a single element, insertion-ordered list when digests are exhausted) are part of ElemsInv, preserved by C02's theorems. Oracle: Go map + VerifyMap + no storage effect after a refusal.",
+        "rule": "adversarial digest tables over 1-4 levels (alphabets of 2-8 values per level), collision limits 0,1,2,3,255, insert/update/remove mixes incl. grow-then-shrink (every run contains a small-limit program and must see a refusal); mapspill: first-level groups grown (by a new member, by an overwrite) to exactly the element limit -1/+0/+1; distinct = distinct programs",
+        "explanation": "Theorems: limit_refuses_new_key, limit_allows_update_and_room (refusal exactly when the first-level group already holds more than the limit and the key is new; an error returns no new state), order_canonical (ascending lexicographic digest order, full collisions in insertion order); group shapes (inline group born with two keys, exported to an external slab exactly when a first-level group exceeds the element limit, collapsed to a single element, insertion-ordered list when digests are exhausted) are part of ElemsInv, preserved by C02's theorems. Oracle: Go map + VerifyMap + no storage effect after a refusal; a group is exported only when its inline size exceeds the element limit and no inline group exceeds it.",
     },
     "C03": {
         "streams": ["persist", "mpersist", "storage", "nested", "slabid"], "driver": {"persist": "array", "mpersist": "map", "storage": "storage", "nested": "world", "slabid": "slabid"}, "level": "proof",
@@ -159,12 +159,13 @@ PROPS = {
     "explanation": "Theorems: batch_array_content / _inv / _ids_fresh, batch_map_* (content, seed/count/order, rejects unsorted / duplicates / seed 0, loop accepts every valid stream, batch_map_inv), can_copy_iff, copy_succeeds_when_offered (iff), copy_content_eq, copy_size_rebased, copy_inv, result_ids_fresh, bytes_roundtrip. Oracles on the implementation: content read back by iteration, VerifyArray/VerifyMap + Verify*Serialization, CheckStorageHealth with the exact root count, disjoint slab-ID sets, mutate-one-check-other (dump and content), copy offered iff single slab of plain values and then succeeds.",
 },
     "C18": {
-        "streams": ["array", "mapcollide", "callbackfail"], "driver": {"array": "array", "mapcollide": "map"}, "level": "proof",
+        "streams": ["array", "mapcollide", "callbackfail", "rejectpair"], "driver": {"array": "array", "mapcollide": "map"}, "level": "proof",
         "trusted_base": LEAN_TB, "assumptions": ARRAY_ASSUME + [
-            "the model's operations return Except: a rejected request carries no new state; what ties this to the code is the per-operation comparison of the net storage effect ('EFF -' after every rejected request) and of the periodic full dumps",
-            "nested handles (ancestors untouched by a rejected child request) are covered by C10's stream, not by these theorems"],
-        "rule": "array stream: out-of-range get/set/insert/remove at every state (profile 3); map collision stream: absent-key removals and collision-limit refusals (limits 0..3) at every state; callback stream: comparator failing at call 1..4, hash-input provider failing, ledger reads failing; distinct = distinct (request kind, error kind) pairs + programs",
-        "explanation": "Theorems: arg_error_category / model_error_categories (by decide over the table regenerated from errors.go), callback_failure_is_external (model of wrapErrorfAsExternalErrorIfNeeded), reject_is_noop, history_with_rejections_same_state. Oracle: errors.As category, no SlabStorage call during a rejected request, dump and Deltas() unchanged.",
+            "the model's operations return Except: a rejected request carries no new state; what ties this to the code is the per-operation comparison of the net storage effect ('EFF -' after every rejected request) and of the full dump written immediately after every rejected request; on the implementation the tree and the write-set keys are compared immediately before and after it",
+            "nested handles (ancestors untouched by a rejected child request) are exercised by the rejectpair stream (one nested array driven through its own handle) and by C10's stream, not by these theorems",
+            "OBSERVATION (not raised): when a first-level group is at the collision limit, hkeyElements.Set probes it with elem.Get and drops every error but KeyNotFound; a comparator / storage-read failure inside that probe is not reported and the request is served (a new colliding key is admitted past the limit). Counted per run as observation:comparator-error-swallowed-in-limit-probe / observation:storage-read-error-swallowed-in-limit-probe in the distribution"],
+        "rule": "array stream: out-of-range get/set/insert/remove at every state (profile 3) incl. indices 2^64-1, 2^32, count+2^32, 2^63; map collision stream: absent-key removals and collision-limit refusals (limits 0..3) at every state; callback stream: comparator failing at call 1..4 of Get/Has/Set/Remove on maps with collision groups AND with mostly non-colliding keys, during mutable iterations; hash-input provider failing for Get/Has/Set/Remove/iterations and for the re-hash of the resident key; ledger reads and SlabStorage reads failing during map and array requests (slabs dropped from the cache first), slab iterator, batch preload; undefined-identifier requests (NewArrayWithRootID / NewMapWithRootID / Store / Remove / Retrieve); collision-limit probe with failing callbacks (observation); rejectpair: 16 histories of 300-500 requests over an array with a nested array, a map with collision limit 1-3 and a map with the real digester, a third of the requests rejected, executed with and without the rejected requests; distinct = distinct (request kind, error kind) pairs + programs",
+        "explanation": "Theorems: arg_error_category / model_error_categories (by decide over the table regenerated from errors.go), callback_failure_is_external (model of wrapErrorfAsExternalErrorIfNeeded), reject_is_noop, history_with_rejections_same_state. Oracle: errors.As category, no SlabStorage call during a rejected request, dump of every container (incl. the ancestors of a nested handle) and the exact write-set keys unchanged immediately after it, ledgers (registers and allocation counters) byte-identical after every commit between the history with its rejected requests and the history without them.",
     },
     "C20": {
         "streams": ["health"], "driver": {"health": "health"}, "level": "proof",
